@@ -24,6 +24,7 @@ def shapes_upto(total, rnd, cap=None):
 
 def real_verdict(cfgc, seed):
     app, exc, info = EC.build_app(cfgc, seed)
+    info = dict((k, v) for k, v in info.items() if k in ('ep_kind', 'rn_kind', 'pattern'))
     return ('accept' if exc is None else type(exc).__name__), info, (repr(exc)[:200] if exc else None)
 
 
